@@ -318,7 +318,7 @@ theorem getElem?_writeAt (x : List β) (off : Nat) (v : List β) (h : off + v.le
   have h1 : (x.take off).length = off := by simp only [List.length_take]; omega
   by_cases hi : i < off
   · rw [List.append_assoc, List.getElem?_append_left (by omega)]
-    simp [hi, List.getElem?_take]
+    simp [hi]
   · by_cases hi2 : i < off + v.length
     · rw [List.getElem?_append_left (by simp only [List.length_append, h1]; omega),
         List.getElem?_append_right (by omega)]
